@@ -65,6 +65,8 @@ let dispatch f args = match f, args with
     show_outcome (fun (q, c) -> "(" ^ show_bytes (c09_sec osec q) ^ " " ^ show_bytes c ^ ")")
       (c09_ckd_pub osec ohmac (arg_z p) (arg_bytes chain) (arg_z i))
   | "serialize", [c; d; fp; i; s; p; ap] -> show_outcome show_bytes (c09_serialize osec (mk_node c d fp i s p) (arg_boolopt ap))
+  | "node_init", [c; d; fp; i; sx; p] ->
+    show_outcome show_node (c09_node_init (arg_bytes c) (arg_z d) (arg_bytes fp) (arg_z i) (arg_opt arg_z sx) (arg_opt arg_z p))
   | "deserialize", [data] -> show_outcome show_node (c09_deserialize ounsec (arg_bytes data))
   | "hwif_data", [a; b; c; d; fp; i; s; p; ap] ->
     show_outcome show_bytes (c09_hwif_data osec (mk_net a b a b) (mk_node c d fp i s p) (arg_bool ap))
